@@ -192,6 +192,7 @@ def pools(U):
     return {
         "dec": dec, "by_ccc": by_ccc, "latin_marks": latin_marks, "starters": starters_with_comp,
         "seconds": seconds, "marks0": by_ccc.get(0, []),
+        "enclosing": [c for c in by_ccc.get(0, []) if unicodedata.category(chr(c)) == "Me"],
         "special": [0x20, 0xA0, 0x1680, 0x2000, 0x2003, 0x2007, 0x200A, 0x202F, 0x205F, 0x3000, 0x2011, 0x2010,
                     0x34F, 0x200C, 0x200D, 0xAD, 0x180B, 0x180F, 0xE0020, 0x61C, 0x25CC, 0x7F, 0x80, 0x41, 0x61],
     }
@@ -242,7 +243,10 @@ def rand_text(r, P, U):
                 a, b = r.choice(P["pairs"])
                 t.append(a)
                 for _ in range(r.below(3)):
-                    t.append(r.choice(P["latin_marks"] + [0x34F]) if r.chance(2, 3) else rand_char(r, P, U))
+                    q2 = r.below(6)
+                    t.append(r.choice(P["latin_marks"] + [0x34F]) if q2 < 3 else
+                             r.choice(P["enclosing"]) if q2 == 3 else
+                             r.choice(P["marks0"]) if q2 == 4 else rand_char(r, P, U))
                 t.append(b)
             else:
                 t.append(r.choice(P["dec"]))
@@ -442,6 +446,15 @@ def classify_run(ln, out):
         ks.append("single")
     if len(inp) > 32:
         ks.append("len>32")
+    for j in range(1, len(inp) - 1):
+        try:
+            ch, nx = chr(inp[j]), chr(inp[j + 1])
+        except ValueError:
+            continue
+        if unicodedata.category(ch).startswith("M") and unicodedata.combining(ch) == 0 and not (j in vs_at) \
+                and unicodedata.category(nx).startswith("M") and unicodedata.combining(nx) != 0:
+            ks.append("class-0-mark-before-mark:" + unicodedata.category(ch))
+            break
     fl = int(o[2])
     if fl & 4: ks.append("space-fallback")
     if fl & 16: ks.append("cgj")
@@ -622,6 +635,11 @@ def lgc_material(U, RD, RC):
 
 def search_strings(ctx, shim, U, RD, RC, r, n_starters, kmax_exh, n_random):
     starters, marks = lgc_material(U, RD, RC)
+    Zc, zsec = zero_marks(U)
+    # class-0 marks that neither decompose nor are the second component of a composition
+    # (and are not default ignorable: these texts are shaped with the default flags)
+    Z0 = {cat: [c for c in cs if c not in U.decomp and c not in zsec and c not in RD and not is_di(U, c)]
+          for cat, cs in Zc.items()}
     # composites reachable from a base letter
     by_base = {}
     for c in RD:
@@ -656,9 +674,18 @@ def search_strings(ctx, shim, U, RD, RC, r, n_starters, kmax_exh, n_random):
                     j -= 1
                 if j < 0:
                     break
+        zs = set()
         for _ in range(n_random):
             k = r.range(kmax_exh + 1, 4) if kmax_exh < 4 else 4
-            texts.append([s] + [r.choice(marks) for _ in range(k)])
+            t = [s] + [r.choice(marks) for _ in range(k)]
+            if r.chance(1, 3):
+                # a mark of combining class 0 (Mn / Me / Mc) somewhere in the run: it ends the reordering run and
+                # blocks composition with the starter for everything after it
+                z = draw_zero(r, Z0, cgj=False)
+                t.insert(r.range(1, len(t)), z)
+                zs.add(z)
+            texts.append(t)
+        leaves = sorted(set(leaves) | zs)
         half = [c for c in comps if r.chance(1, 2)]
         # the same texts followed by a LATER unrelated cluster `x + variation selector(s)`: the starter + marks
         # before it must come out as without it (PRESERVE_DEFAULT_IGNORABLES, so the selectors stay visible)
@@ -694,7 +721,8 @@ def search_strings(ctx, shim, U, RD, RC, r, n_starters, kmax_exh, n_random):
             expect = expect + sfx
             t = t + sfx
             want = [glyph_of(g, c) for c in expect]
-            key = f"{vname}:{len(t) - 1 - len(sfx)}marks" + (":later-selector-cluster" if sfx else "")
+            key = f"{vname}:{len(t) - 1 - len(sfx)}marks" + (":later-selector-cluster" if sfx else "") + \
+                  (":with-class-0-mark" if any(c in U.marks and U.mcc.get(c, 0) == 0 for c in t[1:len(t) - len(sfx)]) else "")
             dist[key] = dist.get(key, 0) + 1
             if expect != t:
                 nontriv += 1
@@ -709,7 +737,8 @@ def search_strings(ctx, shim, U, RD, RC, r, n_starters, kmax_exh, n_random):
                                "expected_glyphs": want, "observed": out, "variant": vname})
     ctx.note_search("strings", n, nontriv, distribution=dist, starters=len(chosen), marks=len(marks), deviations=nbad,
                     rule="Latin/Greek/Cyrillic starter (every first component of a primary composite) + all strings of "
-                         f"0..{kmax_exh} marks (the {len(marks)} BMP second components) + random longer ones up to 4, shaped "
+                         f"0..{kmax_exh} marks (the {len(marks)} BMP second components) + random longer ones up to 4 (one in "
+                         "three with a mark of class 0 and category Mn / Me / Mc inserted anywhere after the starter), shaped "
                          "with cmap-only fonts: (all) every composite of the base letter, (leaves) base letters and marks "
                          "only, (half) a random half of the composites; expected = UAX #15 composition over CPython "
                          "data restricted to supported composites (= NFC / NFD for all / leaves); one text in six is "
@@ -718,10 +747,249 @@ def search_strings(ctx, shim, U, RD, RC, r, n_starters, kmax_exh, n_random):
                          "non-trivial = expected differs from the input")
 
 
+def zero_marks(U):
+    """marks (general category Mn / Me / Mc) of canonical combining class 0 — starters that the normalizer puts into
+    the cluster of the preceding base: enclosing marks, U+034F, spacing and non-spacing vowel signs ... — on which
+    the crate and CPython agree (category M*, class 0, modified class 0); variation selectors excluded.
+    -> {category: [chars]} and the set of those that are second components of a composition"""
+    by_cat = {}
+    for c in sorted(U.marks):
+        if c in U.vs or U.mcc.get(c, 0) != 0 or U.ccc.get(c, 0) != 0:
+            continue
+        if not assigned14(c):
+            continue
+        cat = unicodedata.category(chr(c))
+        if not cat.startswith("M") or unicodedata.combining(chr(c)) != 0:
+            continue
+        # U+0C48 decomposes to U+0C46 U+0C56; U+0C56 (class 91) and U+0C55 (84) have the modified class 0 on purpose
+        # (C09_mcc_classes (4), as in HarfBuzz), so they are not reordered as the reference would: out of scope here
+        # as in the reorder search
+        if any(U.ccc.get(x, 0) != 0 and U.mcc.get(x, 0) == 0 for x in U.full(c)):
+            continue
+        by_cat.setdefault(cat, []).append(c)
+    seconds = {b for (a, b) in U.comp}
+    return by_cat, seconds
+
+
+def draw_zero(r, Z, cgj=True):
+    """one ccc-0 mark: the three categories equally often (Me has 13 characters, Mn / Mc hundreds); U+034F often"""
+    k = r.below(7)
+    if k == 0 and cgj:
+        return 0x34F
+    cat = ("Me", "Mn", "Mc")[k % 3]
+    return r.choice(Z[cat])
+
+
+def is_di(U, c):
+    return any(lo <= c <= hi for lo, hi in U.di)
+
+
+def composing_material(U, RC):
+    """non-mark starters (any script but Hangul) and, per starter, the marks of non-zero class that have a primary
+    composite with it (reference data), restricted to characters the crate classifies alike"""
+    by_starter = {}
+    for (a, b), c in RC.items():
+        if unicodedata.category(chr(a)).startswith("M") or a in U.marks:
+            continue
+        if unicodedata.combining(chr(b)) == 0 or U.mcc.get(b, 0) == 0 or b not in U.marks:
+            continue
+        by_starter.setdefault(a, []).append(b)
+    return by_starter
+
+
+def search_blockers(ctx, shim, U, RD, RC, r, n_starters, n_random):
+    """recomposition (and reordering) never crosses a mark of combining class 0"""
+    Z, zsec = zero_marks(U)
+    by_starter = composing_material(U, RC)
+    allmarks = sorted({m for ms in by_starter.values() for m in ms})
+    starters = sorted(by_starter)
+    # every enclosing mark and U+034F is used at least once per run; the rest is drawn
+    must = list(Z.get("Me", [])) + [0x34F]
+    comps_with_second = {}
+    for (a_, b_), c_ in U.comp.items():
+        comps_with_second.setdefault(b_, []).append(c_)
+    chosen = starters if n_starters >= len(starters) else r.sample(starters, n_starters)
+    groups, meta = [], []
+    checked_ref = 0
+    units = []
+    for si, s in enumerate(chosen):
+        ms = by_starter[s]
+        base = nfd([s])[0]
+        # marks composing with the base letter as well (s may be precomposed)
+        ms_base = sorted(set(ms) | set(by_starter.get(base, [])))
+        texts = []
+
+        def z():
+            return draw_zero(r, Z)
+        for m in ms:
+            texts.append(("base Z mark", [s, must[(si + len(texts)) % len(must)], m]))
+            texts.append(("base Z mark", [s, z(), m]))
+        m = r.choice(ms)
+        k = r.choice(allmarks)
+        texts.append(("base kept Z mark", [s, k, z(), m]))
+        texts.append(("base Z Z mark", [s, z(), z(), m]))
+        texts.append(("base mark Z mark", [s, m, z(), r.choice(ms_base)]))
+        texts.append(("base Z mark mark", [s, z(), r.choice(ms_base), r.choice(allmarks)]))
+        texts.append(("base Z mark mark", [s, z(), r.choice(allmarks), m]))
+        comp = RC.get((s, m))
+        if comp is not None:
+            texts.append(("composite Z mark", [comp, z(), r.choice(ms_base)]))
+            texts.append(("base Z mark, later cluster", [s, z(), m, comp, z()]))
+        for _ in range(n_random):
+            n = r.range(2, 5)
+            t = [s]
+            for _ in range(n):
+                q = r.below(5)
+                t.append(z() if q < 2 else r.choice(ms_base) if q < 4 else r.choice(allmarks))
+            if not any(c in U.marks and U.mcc.get(c, 0) == 0 for c in t[1:]):
+                t.insert(r.range(1, len(t) - 1), z())
+            texts.append(("random", t))
+        units.append(texts)
+    # pairs whose SECOND component is itself a mark of class 0 (two-part vowel signs, Myanmar / Balinese / Chakma ...
+    # letters): adjacent they compose, after any kept mark — whatever its class — they are blocked (mcc(prev) < 0 is
+    # false) and become the starter
+    zpairs = sorted((a, b) for (a, b) in RC if b in zsec and b in U.marks and U.mcc.get(b, 0) == 0
+                    and unicodedata.combining(chr(b)) == 0 and not (0x1100 <= a <= 0x11FF or 0xAC00 <= a <= 0xD7A3))
+    for a, b in (zpairs if n_starters >= len(starters) else r.sample(zpairs, min(len(zpairs), max(8, n_starters // 3)))):
+        pfx = [0x78] if a in U.marks else []
+        k = r.choice(allmarks)
+        units.append([("Z-second adjacent", pfx + [a, b]), ("Z-second adjacent", pfx + [a, b, k]),
+                      ("Z-second after kept mark", pfx + [a, k, b]), ("Z-second after kept mark", pfx + [a, r.choice(allmarks), b, k]),
+                      ("Z-second after Z", pfx + [a, draw_zero(r, Z), b]),
+                      ("Z-second after Z", pfx + [a, must[len(units) % len(must)], b])])
+    for texts in units:
+        chars = sorted({c for _, t in texts for c in t})
+        leaves = sorted({x for c in chars for x in nfd([c])})
+        # every composite whose full decomposition lies inside the leaves of this group
+        comps = set()
+        for c in chars:
+            comps.add(c)
+        frontier = set(leaves)
+        for _ in range(4):
+            add = {c for (a, b), c in RC.items() if a in (frontier | comps) and b in frontier}
+            if add <= comps:
+                break
+            comps |= add
+        comps -= set(leaves)
+        half = {c for c in comps if r.chance(1, 2)}
+        for vname, sup in (("all", set(leaves) | comps), ("leaves", set(leaves)), ("half", set(leaves) | half)):
+            g = groups_from_set(sorted(sup))
+            lines = [f"font b {build_font(g).hex()}"]
+            cases = []
+            for kind, t in texts:
+                flags = 4 if any(is_di(U, c) for c in t) else 0
+                # cut before the last ccc-0 mark that can never be absorbed: each side shaped on its own
+                cut = None
+                for i in range(len(t) - 1, 0, -1):
+                    c = t[i]
+                    # (a class-0 mark that decomposes, U+0F73 -> U+0F71 U+0F72, is no blocker after round one)
+                    if c in U.marks and U.mcc.get(c, 0) == 0 and c not in U.decomp and \
+                            not any(comp_ in sup for comp_ in comps_with_second.get(c, [])):
+                        cut = i
+                        break
+                parts = []
+                if cut is not None:
+                    parts = [t[:cut], t[cut:]]
+                    # one-character clusters are not normalized when the font has the character (short circuit),
+                    # longer ones are decomposed and recomposed: the cut is only comparable when it does not leave a
+                    # decomposable character alone in its cluster
+                    lo = cut - 1
+                    while lo > 0 and t[lo] in U.marks:
+                        lo -= 1
+                    hi = cut + 1
+                    while hi < len(t) and t[hi] in U.marks:
+                        hi += 1
+                    if (cut - lo == 1 and t[lo] in U.decomp) or (hi - cut == 1 and t[cut] in U.decomp):
+                        parts = []
+                lines.append(shape_line("b", t, flags))
+                for p_ in parts:
+                    lines.append(shape_line("b", p_, flags))
+                cases.append((kind, t, flags, parts))
+            groups.append(lines)
+            meta.append((vname, g, sup, cases))
+    outs = vlib.run_groups(shim, groups, timeout=1800)
+    n = nontriv = nbad = nsplit = 0
+    dist = {}
+    zcats = {}
+    for (vname, g, sup, cases), o, grp in zip(meta, outs, groups):
+        inv = {}
+        for s_, e_, g_ in g:
+            for c in range(s_, e_ + 1):
+                inv[g_ + (c - s_)] = c
+        i = 1
+        for kind, t, flags, parts in cases:
+            out, ln = o[i], grp[i]
+            pouts, plns = o[i + 1:i + 1 + len(parts)], grp[i + 1:i + 1 + len(parts)]
+            i += 1 + len(parts)
+            n += 1
+            got = parse_shape(out)
+            expect = nfc_restricted(t, lambda c: c in sup, RC)
+            if checked_ref < 400 and vname == "all":
+                checked_ref += 1
+                full = nfc_restricted(t, lambda c: True, RC)
+                assert full == [ord(x) for x in unicodedata.normalize("NFC", "".join(map(chr, t)))], (t, full)
+            want = [glyph_of(g, c) for c in expect]
+            key = f"{vname}:{kind}"
+            dist[key] = dist.get(key, 0) + 1
+            for c in t[1:]:
+                if c in U.marks and U.mcc.get(c, 0) == 0:
+                    cat = unicodedata.category(chr(c)) + (":second-component" if c in zsec else "")
+                    zcats[cat] = zcats.get(cat, 0) + 1
+            # non-trivial = a mark after the ccc-0 mark has a composite with the (decomposed) starter that the
+            # font maps, i.e. ignoring the blocker would change the glyphs
+            zi = next(j for j in range(1, len(t)) if t[j] in U.marks and U.mcc.get(t[j], 0) == 0)
+            zs_at = [j for j in range(1, len(t)) if t[j] in U.marks and U.mcc.get(t[j], 0) == 0]
+            if any(RC.get((a_, t[j2])) in sup
+                   for j1 in range(len(t)) for j2 in range(j1 + 2, len(t)) if any(j1 < j <= j2 for j in zs_at)
+                   for a_ in (t[j1], nfd([t[j1]])[0])):
+                nontriv += 1
+            bad = None
+            if got != want:
+                gotc = [inv.get(x, 0) for x in (got or [])]
+                bad = (f"{vname}: text {['%04X' % c for c in t]} shaped to {['%04X' % c for c in gotc]}, reference "
+                       f"(canonical composition restricted to the font's characters; U+{t[zi]:04X} has combining "
+                       f"class 0 and blocks) {['%04X' % c for c in expect]}",
+                       {"stage": "search", "stream": "blockers", "font_line": grp[0], "request": ln,
+                        "expected_glyphs": want, "observed": out, "variant": vname, "kind": kind})
+            elif parts:
+                nsplit += 1
+                pg = [parse_shape(x) for x in pouts]
+                cat_want = None if any(x is None for x in pg) else [y for x in pg for y in x]
+                if cat_want != got:
+                    bad = (f"{vname}: text {['%04X' % c for c in t]} shaped to {got}, but cut before the class-0 mark "
+                           f"U+{parts[1][0]:04X} the two sides shape to {pg}",
+                           {"stage": "search", "stream": "blockers-cut", "font_line": grp[0], "request": ln,
+                            "part_requests": plns, "expected_glyphs": cat_want, "observed": out,
+                            "observed_parts": pouts, "variant": vname, "kind": kind})
+            if bad:
+                nbad += 1
+                if nbad <= 3:
+                    ctx.violation(*bad)
+    ctx.note_search("blockers", n, nontriv, distribution=dist, blocker_categories=zcats, starters=len(chosen),
+                    cut_comparisons=nsplit, deviations=nbad,
+                    rule="non-mark starter of any script (first component of a primary composite with a mark of "
+                         "non-zero class) followed by marks among which at least one has general category Mn / Me / Mc "
+                         "and combining class 0 (every enclosing mark, U+034F, drawn spacing and non-spacing marks): "
+                         "base Z mark for every mark that composes with the base, and base kept Z mark, base Z Z mark, "
+                         "base mark Z mark, base Z mark mark, composite Z mark, with a later cluster, and random runs "
+                         "of 2..5; and the pairs whose second component is itself a mark of class 0 (two-part vowel signs, "
+                         "Myanmar / Balinese / Chakma letters): adjacent, after a kept mark of any class, after a class-0 "
+                         "mark; cmap-only fonts with (all) every composite over the leaves, (leaves) no composite, "
+                         "(half) a random half; script forced to Latn (default shaper), PRESERVE_DEFAULT_IGNORABLES "
+                         "when the text has one. Oracle 1: UAX #15 canonical composition over CPython data restricted to "
+                         "supported composites. Oracle 2 (metamorphic, C09_recompose_never_crosses_ccc0 through "
+                         "shape()): the text cut before its last class-0 mark that is the second component of no "
+                         "supported composite shapes to the concatenation of the two sides. non-trivial = a character after "
+                         "(or at) a class-0 mark has a composite, which the font maps, with a character before it that is "
+                         "not its neighbour")
+
+
 def search_reorder(ctx, shim, U, r, per_combo, cross):
     """metamorphic: two adjacent marks with different non-zero canonical classes may be swapped without
     changing the result (canonical equivalence), as long as the modified classes do not zero them"""
     marks = [c for c in sorted(U.ccc) if U.mcc.get(c, 0) != 0]
+    Zc, zsec = zero_marks(U)
+    Z0 = {cat: [c for c in cs if c not in U.decomp and c not in zsec and not is_di(U, c)] for cat, cs in Zc.items()}
     blocks = {}
     for c in marks:
         blocks.setdefault(c >> 8, []).append(c)
@@ -743,7 +1011,8 @@ def search_reorder(ctx, shim, U, r, per_combo, cross):
                         pairs.append((m1, m2))
         if not pairs:
             continue
-        g = groups_from_set([0x61, 0x78] + VS_POOL + ms + generic)
+        gz = [draw_zero(r, Z0, cgj=False) for _ in range(3)]
+        g = groups_from_set([0x61, 0x78] + VS_POOL + ms + generic + gz)
         lines = [f"font r {build_font(g).hex()}"]
         for m1, m2 in pairs:
             third = r.choice(ms)
@@ -759,15 +1028,36 @@ def search_reorder(ctx, shim, U, r, per_combo, cross):
             sfx = [0x78] + vs_run(r)
             lines.append(shape_line("r", [0xE4, m1, m2] + sfx, flags=4))
             lines.append(shape_line("r", [0xE4, m2, m1] + sfx, flags=4))
+            # and separated by a mark of class 0: the two are in different runs, neither order may change
+            z = r.choice(gz)
+            lines.append(shape_line("r", [0x61, m1, z, m2]))
+            lines.append(shape_line("r", [0x61, m2, z, m1]))
         groups.append(lines)
-        meta.append(pairs)
+        meta.append((pairs, g))
     outs = vlib.run_groups(shim, groups, timeout=1800)
     n = nontriv = nbad = 0
     classes = set()
-    for pairs, o, grp in zip(meta, outs, groups):
+    nsep = 0
+    for (pairs, g), o, grp in zip(meta, outs, groups):
         for i, (m1, m2) in enumerate(pairs):
+            for off in (6, 7):
+                ln, out = grp[1 + 8 * i + off], o[1 + 8 * i + off]
+                t = [int(x.split(":")[0], 16) for x in ln.split()[10].split(",")]
+                if any(c in U.decomp for c in t):
+                    continue              # a mark with a decomposition is replaced by its pieces
+                n += 1
+                nsep += 1
+                want = [glyph_of(g, c) for c in t]
+                if parse_shape(out) != want:
+                    nbad += 1
+                    if nbad > 3:
+                        continue
+                    ctx.violation(f"marks separated by a mark of class 0 are not left in place: text {ln.split()[10]} "
+                                  f"(U+{t[2]:04X} has class 0) shaped to {parse_shape(out)}, expected {want}",
+                                  {"stage": "search", "stream": "reorder-separated", "font_line": grp[0], "request": ln,
+                                   "expected_glyphs": want, "observed": out})
             for off in (0, 2, 4):
-                a, b = o[1 + 6 * i + off], o[2 + 6 * i + off]
+                a, b = o[1 + 8 * i + off], o[2 + 8 * i + off]
                 ga, gb = parse_shape(a), parse_shape(b)
                 n += 2
                 nontriv += 2
@@ -776,21 +1066,23 @@ def search_reorder(ctx, shim, U, r, per_combo, cross):
                     nbad += 1
                     if nbad > 3:
                         continue          # leave room for the other streams' reports (the count is in the evidence)
-                    texts = [grp[1 + 6 * i + off].split()[10], grp[2 + 6 * i + off].split()[10]]
+                    texts = [grp[1 + 8 * i + off].split()[10], grp[2 + 8 * i + off].split()[10]]
                     what = ("canonically equivalent mark orders shape differently" if ga != gb else
                             "a character whose whole canonical decomposition the font maps is rendered as .notdef")
                     ctx.violation(f"{what}: U+{m1:04X} (ccc {U.ccc[m1]}, "
                                   f"modified {U.mcc[m1]}) / U+{m2:04X} (ccc {U.ccc[m2]}, modified {U.mcc[m2]}), texts "
                                   f"{texts[0]} / {texts[1]}: {ga} vs {gb}",
                                   {"stage": "search", "stream": "reorder", "font_line": grp[0],
-                                   "request": grp[1 + 6 * i + off], "request2": grp[2 + 6 * i + off],
+                                   "request": grp[1 + 8 * i + off], "request2": grp[2 + 8 * i + off],
                                    "observed": a, "observed2": b})
     ctx.note_search("reorder", n, nontriv, class_pairs=len(classes), blocks=len(groups), deviations=nbad,
+                    separated_by_class_0=nsep,
                     rule="letter a + two marks of different non-zero canonical classes (same 256-block, or one from "
                          "U+03xx) in both orders, alone, next to a third mark, and on the precomposed base U+00E4 (the "
                          "font has only a and U+0308) followed by a later unrelated cluster x + 1..3 variation selectors; "
                          "cmap-only font without composites, script forced to Latn (default shaper): both orders must "
-                         "give the same glyphs and no .notdef; marks whose modified class is 0 are excluded")
+                         "give the same glyphs and no .notdef; marks whose modified class is 0 are excluded; and the two "
+                         "marks separated by a mark of class 0 (Mn / Me / Mc), in both orders: glyphs of the text as it is")
 
 
 def context_pieces(r, marks):
@@ -824,6 +1116,8 @@ def search_context(ctx, shim, U, RD, RC, r, n_fonts, per_font):
         if all(x in marks for x in f[1:]) and len(f) > 1:
             by_base.setdefault(f[0], []).append(c)
     P = pools(U)
+    Zc, zsec = zero_marks(U)
+    Z0 = {cat: [c for c in cs if c not in U.decomp and c not in zsec and c not in RD] or cs for cat, cs in Zc.items()}
     ctx_chars = [0x78, 0x4E00, 0x2205, 0x41, 0x20, 0xE4]
     groups, meta = [], []
     for fi in range(n_fonts):
@@ -834,7 +1128,8 @@ def search_context(ctx, shim, U, RD, RC, r, n_fonts, per_font):
             leaves.add(base)
             comps |= set(by_base.get(base, [])) | {s_}
         mode = r.below(4)
-        sup = set(leaves) | set(ctx_chars)
+        fz = [draw_zero(r, Z0) for _ in range(4)]
+        sup = set(leaves) | set(ctx_chars) | set(fz)
         if mode == 0: sup |= comps
         elif mode == 1: sup |= {c for c in comps if r.chance(1, 2)}
         elif mode == 2: sup |= {c for c in comps if r.chance(1, 2)}; sup -= {c for c in ss if r.chance(1, 2)}
@@ -861,6 +1156,8 @@ def search_context(ctx, shim, U, RD, RC, r, n_fonts, per_font):
                 A = [c for c in A if c not in U.vs]
             if A[0] in U.marks:
                 A = [s_] + A
+            if r.chance(1, 3):
+                A.insert(r.range(1, len(A)), r.choice(fz))        # a class-0 mark inside the cluster
             pre = context_pieces(r, marks) if r.chance(1, 2) else []
             if r.chance(1, 8):
                 pre = vs_run(r)                      # a lone run of selectors at the start of the text
@@ -890,7 +1187,8 @@ def search_context(ctx, shim, U, RD, RC, r, n_fonts, per_font):
             has_vs = any(c in U.vs for c in pre + post)
             later = any(c in U.vs for c in post)
             key = ("selector-later" if later else "selector-before" if has_vs else "no-selector") + \
-                  (":format14" if uvs else "") + ("" if vs_glyphs else ":no-selector-glyphs") + f":flags{flags}"
+                  (":format14" if uvs else "") + ("" if vs_glyphs else ":no-selector-glyphs") + f":flags{flags}" + \
+                  (":class-0-mark" if any(c in U.marks and U.mcc.get(c, 0) == 0 for c in A[1:]) else "")
             dist[key] = dist.get(key, 0) + 1
             if has_vs:
                 nontriv += 1
@@ -908,7 +1206,8 @@ def search_context(ctx, shim, U, RD, RC, r, n_fonts, per_font):
     ctx.note_search("context", n, nontriv, distribution=dist, fonts=n_fonts, deviations=nbad,
                     rule="P ++ A ++ S against P, A, S shaped on their own (same cmap-only font, flags default / "
                          "PRESERVE_DEFAULT_IGNORABLES / REMOVE_DEFAULT_IGNORABLES, sometimes a not-found-variation-selector "
-                         "glyph): A = Latin/Greek/Cyrillic starter (often precomposed) + 1..3 marks, or a decomposable "
+                         "glyph): A = Latin/Greek/Cyrillic starter (often precomposed) + 1..3 marks (one in three with a mark of "
+                         "class 0, category Mn / Me / Mc, inserted), or a decomposable "
                          "character + second components; P, S = nothing, a letter, or clusters with one or several "
                          "consecutive variation selectors after a base, after a mark, inside and at the end of a mark run; "
                          "fonts with all / half / none of the composites, with and without glyphs for the selectors, "
@@ -995,6 +1294,7 @@ def run(ctx):
     search_strings(ctx, shim, U, RD, RC, ctx.rng("strings"), ctx.budget(100, 10 ** 6), ctx.budget(1, 2),
                    ctx.budget(40, 120))
     search_context(ctx, shim, U, RD, RC, ctx.rng("context"), ctx.budget(60, 600), ctx.budget(40, 100))
+    search_blockers(ctx, shim, U, RD, RC, ctx.rng("blockers"), ctx.budget(80, 10 ** 6), ctx.budget(12, 60))
 
 
 def replay(ctx, rp):
@@ -1003,7 +1303,7 @@ def replay(ctx, rp):
         o = vlib.run_groups(shim, [[rp["font_line"], rp["request"], rp["request2"]]], nproc=1)[0]
         print("order 1:", o[1]); print("order 2:", o[2])
         return 0 if parse_shape(o[1]) == parse_shape(o[2]) and parse_shape(o[1]) is not None else 1
-    if rp.get("stream") == "context":
+    if rp.get("stream") in ("context", "blockers-cut"):
         o = vlib.run_groups(shim, [[rp["font_line"], rp["request"]] + rp["part_requests"]], nproc=1)[0]
         print("whole:", o[1])
         for x in o[2:]:
